@@ -61,12 +61,14 @@ def certificate_sweep(ctx, report):
     viol = []
     for alg in ("alldifferent", "gcc"):
         cases = [gen.prop_random(alg, rng) for _ in range(n_scope)] + [big_case(alg, rng) for _ in range(n_big)]
+        if alg == "alldifferent":  # values far from zero, domains wider than 16 bits
+            cases += [gen.prop_wide(alg, rng) for _ in range(n_big // 2)]
         cases = [(ps, b) for ps, b in cases if props_sweep.known_finding(alg, ps, b) is None]
         outs, reqs = [], []
         for ps, b in cases:
             st, out = nv.impl_prop(alg, ps, b)
             report.cov["evaluations"] += 1
-            if st in (0, "oob"):
+            if st in (0, "oob", "hang"):
                 report.count("certificate", f"{alg}:failing-call")
                 if st == 0 and flowcheck.feasible(alg, ps, b):
                     viol.append({"alg": alg, "params": list(ps), "box": [list(d) for d in b], "kind": "sound",
